@@ -84,12 +84,12 @@ def r2_uniform_choice(ctx, rule):
                 'nothing', None, node)
     for key in ('C', 'else'):
         body = br[key]
-        loops = [n for s in body for n in walk_local(s) if isinstance(n, (ast.For, ast.While)) and U(getattr(n, 'iter', n)) != 'mask']
+        loops = [n for s in body for n in walk_local(s) if isinstance(n, (ast.For, ast.While)) and not any(isinstance(y, ast.Name) and y.id == 'mask' for y in ast.walk(n.iter if isinstance(n, ast.For) else n.test))]
         choices = [c for s in body for c in calls_in(s) if call_name(c) == 'random.choice']
         facts = {'branch': key, 'choices': [U(c) for c in choices]}
         if loops:
             ok = False
-            ctx.bad(rule, HG, '%s branch loops over %s' % (key, [U(getattr(l, 'iter', l.test)) for l in loops]), 'exactly one value of '
+            ctx.bad(rule, HG, '%s branch loops over %s' % (key, [U(l.iter if isinstance(l, ast.For) else l.test) for l in loops]), 'exactly one value of '
                     'the group is drawn', facts, loops[0])
         if len(choices) != 1 or not c04.is_group_values(ctx.fn(HG), choices[0].args[0]):
             ok = False
